@@ -51,7 +51,7 @@ def demo_info(d):
     m = re.search(r"cp\s+\S*_test\.go\s+(\S+)", run)
     if m:
         dest = m.group(1)
-        dest = re.sub(r"^/tmp/seed[2345]?/C\d+/", "", dest)
+        dest = re.sub(r"^/tmp/seed[23456]?/C\d+/", "", dest)
         dest = re.sub(r"^<[a-z ]+>/", "", dest)
     mm = re.search(r"mkdir -p (\S+)", run)
     rm = re.search(r"go test[^\n]*?-run\s+'?\"?([^'\"\s]+)", run)
@@ -62,9 +62,9 @@ def demo_info(d):
 def main():
     only = [a for a in sys.argv[1:] if not a.startswith("--")]
     os.makedirs("/verif/seeded", exist_ok=True)
-    for d in sorted(glob.glob("/tmp/seed/out/C*/m[0-9]")) + sorted(glob.glob("/tmp/seed2/out/C*/m[0-9]")) + sorted(glob.glob("/tmp/seed3/out/C*/m[0-9]")) + sorted(glob.glob("/tmp/seed4/out/C*/m[0-9]")) + sorted(glob.glob("/tmp/seed5/out/C*/m[0-9]")):
+    for d in sorted(glob.glob("/tmp/seed/out/C*/m[0-9]")) + sorted(glob.glob("/tmp/seed2/out/C*/m[0-9]")) + sorted(glob.glob("/tmp/seed3/out/C*/m[0-9]")) + sorted(glob.glob("/tmp/seed4/out/C*/m[0-9]")) + sorted(glob.glob("/tmp/seed5/out/C*/m[0-9]")) + sorted(glob.glob("/tmp/seed6/out/C*/m[0-9]")):
         pid, mn = d.split("/")[-2], d.split("/")[-1]
-        name = f"{pid}-{mn}" if d.startswith("/tmp/seed/") else (f"{pid}-r2{mn}" if d.startswith("/tmp/seed2/") else (f"{pid}-r3{mn}" if d.startswith("/tmp/seed3/") else (f"{pid}-r4{mn}" if d.startswith("/tmp/seed4/") else f"{pid}-r5{mn}")))
+        name = f"{pid}-{mn}" if d.startswith("/tmp/seed/") else (f"{pid}-r2{mn}" if d.startswith("/tmp/seed2/") else (f"{pid}-r3{mn}" if d.startswith("/tmp/seed3/") else (f"{pid}-r4{mn}" if d.startswith("/tmp/seed4/") else (f"{pid}-r5{mn}" if d.startswith("/tmp/seed5/") else f"{pid}-r6{mn}"))))
         if only and name not in only and pid not in only:
             continue
         try:
